@@ -36,7 +36,7 @@ man = dict(
     engines=[dict(name="tlc+vh", path="/verif/bin/check", serves_properties=[c["property_id"] for c in checks],
                   kind_free_text="explicit TLA+ specifications (spec/) model-checked by TLC; Go harness vh (harness/) executes TLC-generated transitions and seeded drivers on the real comdex keepers and records tree logs; TLC trace specifications evaluate the property formulas and spec conformance on every recorded state")],
     checks=checks,
-    notes="Verdicts come only from TLA+ formulas evaluated by TLC on states produced by the real code (DESIGN.md 3.5). Known findings (open entries, matched narrowly per formula and failing step) and the "fixed:" list of repaired defects: KNOWN_FINDINGS.json plus one file per family under known/. Specification families beyond the listed properties run with bin/extra (evidence_extra/).",
+    notes="Verdicts come only from TLA+ formulas evaluated by TLC on states produced by the real code (DESIGN.md 3.5). Known findings (open entries, matched narrowly per formula and failing step) and the 'fixed:' list of repaired defects: KNOWN_FINDINGS.json plus one file per family under known/. Specification families beyond the listed properties run with bin/extra (evidence_extra/).",
     not_applicable=na)
 json.dump(man, open(os.path.join(V, "MANIFEST.json"), "w"), indent=1)
 print("MANIFEST: %d checks, %d not claimed" % (len(checks), len(na)))
